@@ -33,6 +33,7 @@ def showRes : Res → String
   | .err e => "err:" ++ e
   | .val none => "nil"
   | .val (some v) => "v:" ++ toHex v
+  | .got v k => "v:" ++ toHex v ++ ";k:" ++ toHex k
   | .lst l => showList l
   | .kvs s => "d:" ++ ",".intercalate (s.map fun e => toHex e.1 ++ "=" ++ toHex e.2)
   | .bad => "bad-op"
